@@ -393,6 +393,7 @@ func watcher(rep *hx.Report, w *world.World, rng *hx.Rng, steps int) {
 	defer W.Close()
 	defer c0.Close()
 	count := -1
+	badNotice := ""
 	apply := func(r world.Resp) {
 		for _, l := range r.Untagged {
 			f := strings.Fields(l)
@@ -400,6 +401,9 @@ func watcher(rep *hx.Report, w *world.World, rng *hx.Rng, steps int) {
 				count, _ = strconv.Atoi(f[1])
 			}
 			if len(f) == 3 && f[0] == "*" && f[2] == "EXPUNGE" {
+				if k, _ := strconv.Atoi(f[1]); k < 1 || k > count {
+					badNotice = fmt.Sprintf("untagged %q while the session has been told of %d messages", l, count)
+				}
 				count--
 			}
 		}
@@ -429,7 +433,11 @@ func watcher(rep *hx.Report, w *world.World, rng *hx.Rng, steps int) {
 		case 3:
 			o2 := w.Login(u)
 			o2.Cmd("SELECT INBOX")
-			o2.Cmd(fmt.Sprintf("STORE %d +FLAGS.SILENT (\\Deleted)", 1+rng.Intn(3)))
+			if rng.Bool() {
+				o2.Cmd("STORE * +FLAGS.SILENT (\\Deleted)") // the newest message: possibly one the watcher has not been told about yet
+			} else {
+				o2.Cmd(fmt.Sprintf("STORE %d +FLAGS.SILENT (\\Deleted)", 1+rng.Intn(3)))
+			}
 			o2.Close()
 			trail = append(trail, "flag-deleted-by-other")
 		case 4:
@@ -441,6 +449,10 @@ func watcher(rep *hx.Report, w *world.World, rng *hx.Rng, steps int) {
 		case 6:
 			apply(W.Cmd("STORE 1 +FLAGS.SILENT (\\Deleted)"))
 			trail = append(trail, "STORE-own")
+		}
+		if badNotice != "" {
+			rep.Violate("impl-violation", "client replay (the selected session's own view)", fmt.Sprintf("after %v: %s — a client cannot apply a removal of a message it was never told about", trail, badNotice), []string{"watcher " + strings.Join(trail, ",")})
+			return
 		}
 		if rng.Chance(45) || i == steps-1 {
 			apply(W.Cmd("NOOP"))
